@@ -7,6 +7,11 @@
 //! (non-chained sets only) and compact-block hydration (random and injected
 //! nonces, every grouping) are checked on the same multiset.
 //!
+//! The exploration runs in 16 single-threaded child processes (`part`, through
+//! `pbt_proc`): grin's secp context is one global mutex, threads do not scale.
+//! Nothing is special-cased: a de-aggregation or offset-sum failure (both seen
+//! and since fixed in grin) is a plain failure that stops and shrinks.
+//!
 //! part "cancel": hand-built multisets of 2–4 valid transactions whose non-zero
 //! offsets sum to zero (an operand may choose its own offset freely, so
 //! `-offset(A)` is a legal offset for B). part "block_cancel": one valid
@@ -57,6 +62,8 @@ const UNIVERSE: usize = AMOUNTS.len() * N_KEYS;
 const MAX_FEE: u64 = 4;
 const MAX_TXS: usize = 6;
 const MAX_KERNELS: usize = 3;
+const QUICK_CASES: u64 = 2000;
+const THOROUGH_CASES: u64 = 40_000;
 
 fn universe(i: usize) -> OutRef {
 	OutRef {
@@ -687,14 +694,6 @@ fn same_block(what: &str, got: &Block, want: &Block) -> PResult {
 
 // ---------------------------------------------------------------- the check
 
-/// Failures of these classes do not stop the case (the remaining parts still
-/// run); the first one is returned at the end.
-fn soft(softs: &mut Vec<Fail>, r: PResult) {
-	if let Err(f) = r {
-		softs.push(f);
-	}
-}
-
 pub fn check_multiset(ctx: &Ctx, case: &Case, counting: bool) -> PResult {
 	init_thread();
 	let ev = &ctx.ev;
@@ -712,7 +711,6 @@ pub fn check_multiset(ctx: &Ctx, case: &Case, counting: bool) -> PResult {
 	let ex = expect_of(&refs)?;
 	let n_matched = ex.matched.len();
 	let mut seed = case.pick;
-	let mut softs: Vec<Fail> = vec![];
 
 	// ---- 1. the aggregate against the model
 	let whole = agg("agg", "whole multiset", &txs)?;
@@ -771,7 +769,7 @@ pub fn check_multiset(ctx: &Ctx, case: &Case, counting: bool) -> PResult {
 	}
 
 	// ---- 4. de-aggregation (only when no transaction spends another's output)
-	let (mut n_deagg, mut n_deagg_err) = (0u64, 0u64);
+	let mut n_deagg = 0u64;
 	if n_matched == 0 && n >= 2 {
 		for mask in 1u32..((1u32 << n) - 1) {
 			let known: Vec<Transaction> = (0..n).filter(|i| mask & (1 << i) != 0).map(|i| txs[i].clone()).collect();
@@ -782,23 +780,18 @@ pub fn check_multiset(ctx: &Ctx, case: &Case, counting: bool) -> PResult {
 			let d = match deaggregate(whole.clone(), &known) {
 				Ok(d) => d,
 				Err(e) => {
-					n_deagg_err += 1;
+					// a plain failure; the signature names the one input class that is
+					// known to have failed before (fixed in grin by fa092684c)
 					let zero_rest = ex_rest.offset == BlindingFactor::zero();
-					let sig = if zero_rest { SOFT_SIG } else { "deagg:err" };
-					soft(
-						&mut softs,
-						Err(Fail::new(
-							sig,
-							format!(
-								"{} failed: {:?} (offset of the remainder is {}, offset of the known subset is {})",
-								what,
-								e,
-								if zero_rest { "zero" } else { "non-zero" },
-								if sum_offsets(&known.iter().map(|t| t.offset.clone()).collect::<Vec<_>>()) == BlindingFactor::zero() { "zero" } else { "non-zero" }
-							),
-						)),
+					let zero_known = sum_offsets(&known.iter().map(|t| t.offset.clone()).collect::<Vec<_>>()) == BlindingFactor::zero();
+					fail!(
+						if zero_rest && !zero_known { "deagg:err:remainder-offset-zero" } else { "deagg:err" },
+						"{} failed: {:?} (offset of the remainder is {}, offset of the known subset is {})",
+						what,
+						e,
+						if zero_rest { "zero" } else { "non-zero" },
+						if zero_known { "zero" } else { "non-zero" }
 					);
-					continue;
 				}
 			};
 			check_model("deagg", &what, &d, &ex_rest)?;
@@ -918,9 +911,6 @@ pub fn check_multiset(ctx: &Ctx, case: &Case, counting: bool) -> PResult {
 			ev.class("deaggregate_checked");
 			ev.class_n("deaggregate_subsets", n_deagg);
 		}
-		if n_deagg_err > 0 {
-			ev.class_n("deaggregate_subsets_that_errored", n_deagg_err);
-		}
 		ev.class_n("hydrate_groupings", n_hydr);
 		ev.class_n("permutations_checked", perms.len() as u64);
 		ev.class_n("groupings_checked", groupings.len() as u64);
@@ -937,12 +927,7 @@ pub fn check_multiset(ctx: &Ctx, case: &Case, counting: bool) -> PResult {
 			ev.sample("multiset", || serde_json::to_value(case).unwrap());
 		}
 	}
-	// an unclassified soft failure outranks the classified one
-	softs.sort_by_key(|f| f.sig == SOFT_SIG);
-	match softs.into_iter().next() {
-		Some(f) => Err(f),
-		None => Ok(()),
-	}
+	Ok(())
 }
 
 // ---------------------------------------------------------------- part "cancel"
@@ -1067,9 +1052,6 @@ pub fn check_block_cancel(ctx: &Ctx, variant: u32, counting: bool) -> PResult {
 
 // ---------------------------------------------------------------- run / replay
 
-/// the one failure class that is collected without stopping the case
-const SOFT_SIG: &str = "deagg:err:remainder-offset-zero";
-
 /// two independent one-kernel transactions, the first with a non-zero offset,
 /// the second with a zero offset
 fn minimal_zero_remainder_case() -> Case {
@@ -1098,7 +1080,7 @@ pub fn run(ctx: &Ctx) -> HResult<()> {
 	init_global();
 	let ev = &ctx.ev;
 	ev.rule("multisets of 1-6 valid transactions generated by proptest and resolved by construction (outputs drawn without replacement from 64 memoised bulletproof outputs, chained inputs = not-yet-spent outputs of earlier transactions, fresh bare-commitment inputs balance the value; 1-3 kernels per tx of Plain/HeightLocked/NRD with fee shifts, zero or non-zero offset per tx); per multiset: aggregate vs a commitment-set model (kernel multiset, offset sum via libsecp, inputs/outputs = union minus matched pairs both directions, sorted, validates), all permutations (n<=4) or 6 random, every bracketing of the identity and of one random order plus 3 random set partitions, deaggregate of every non-empty proper subset (non-chained multisets only), Block::from_reward -> CompactBlock (From<Block> random nonce + injected chosen nonce) -> hydrate_from for every supply (separate/reordered/single aggregate/every grouping) compared with the block by header hash and bytes | non-trivial = >=1 cut-through pair or >=3 transactions; distinct by (n txs, n cut-through pairs, kernel-variant counts, zero-offset pattern, group sizes of the first random partition)");
-	ev.assume("world::assemble builds the operands (validated with Transaction::validate(AsTransaction) before use); libsecp blind_sum is the offset oracle; consensus sort order (by hash) and Hashed are trusted");
+	ev.assume("operands are built like world::assemble (same kernel keys and world::sign_kernel with its deterministic nonce, derived keys memoised per key index and checked against LIB.commit) and must pass every check of Transaction::validate(AsTransaction) before use (range proof of each distinct library output verified once per child process); libsecp blind_sum is the offset oracle; consensus sort order (by hash) and Hashed are trusted");
 	ev.assume("hydration means Block::hydrate_from over all the block's transactions (what the statement says), not the pool's short-id lookup");
 
 	// bulletproofs of the universe and of the possible coinbases, on all cores
@@ -1139,41 +1121,19 @@ pub fn run(ctx: &Ctx) -> HResult<()> {
 		}
 	}
 
-	// The smallest multiset with a zero-offset remainder, first: if it shows the
-	// de-aggregation failure, that root cause is reported here once, with this
-	// minimal input, and further instances met by the exploration are only counted
-	// (they must not stop it: most independent multisets with mixed offsets have one).
+	// directed: the smallest multiset whose remainder has a zero offset while the
+	// known subset has not (de-aggregation failed on it before fa092684c)
 	let minimal = minimal_zero_remainder_case();
-	let mut soft_reported = false;
-	match catch(|| check_multiset(ctx, &minimal, true)) {
-		Ok(Ok(())) => {}
-		Ok(Err(f)) | Err(f) => {
-			soft_reported = f.sig == SOFT_SIG;
-			ctx.report("multiset", &f.sig, serde_json::to_value(&minimal).unwrap(), &f.msg);
-		}
+	if let Ok(Err(f)) | Err(f) = catch(|| check_multiset(ctx, &minimal, true)) {
+		ctx.report("multiset", &f.sig, serde_json::to_value(&minimal).unwrap(), &f.msg);
 	}
 
-	let cases = ctx.n(480, 8000);
-	let soft_seen: std::sync::Mutex<Option<(usize, Case, Fail)>> = std::sync::Mutex::new(None);
-	let fl = pbt_par(ctx, "c12", cases, 16, case_strategy, init_thread, |c, counting| match check_multiset(ctx, c, counting) {
-		Err(f) if f.sig == SOFT_SIG => {
-			if counting {
-				ev.class("deaggregate_failed_remainder_offset_zero");
-			}
-			let size: usize = c.txs.iter().map(|t| 100 + t.inputs.len() + t.outputs.len() + t.kernels.len()).sum();
-			let mut g = soft_seen.lock().unwrap();
-			if g.as_ref().map(|(s, _, _)| size < *s).unwrap_or(true) {
-				*g = Some((size, c.clone(), f));
-			}
-			Ok(())
-		}
-		r => r,
-	});
-	if let Some(fl) = fl {
-		ctx.report("multiset", &fl.fail.sig, serde_json::to_value(&fl.value).unwrap(), &fl.fail.msg);
-	}
-	if let (false, Some((_, c, f))) = (soft_reported, soft_seen.lock().unwrap().take()) {
-		ctx.report("multiset", &f.sig, serde_json::to_value(&c).unwrap(), &f.msg);
+	// the exploration: 16 single-threaded child processes (grin's secp context is
+	// one global mutex, threads do not scale); the bulletproofs prefetched above
+	// reach the children through the on-disk cache
+	let cases = ctx.n(QUICK_CASES, THOROUGH_CASES);
+	if let Some((case, f)) = pbt_proc(ctx, "multiset", cases, 16) {
+		ctx.report("multiset", &f.sig, case, &f.msg);
 	}
 	ev.extra("proofs_created", json!(LIB.proofs_created.load(std::sync::atomic::Ordering::Relaxed)));
 	for cl in ["with_cut_through", "multi_kernel", "nrd", "height_locked", "zero_offset", "deaggregate_checked", "hydrate_groupings", "injected_nonce"] {
@@ -1182,6 +1142,15 @@ pub fn run(ctx: &Ctx) -> HResult<()> {
 		}
 	}
 	Ok(())
+}
+
+/// one child process of the exploration (single-threaded)
+pub fn part(ctx: &Ctx, part: &str, seed: u64, cases: u32) -> Option<(Value, Fail)> {
+	init_global();
+	match part {
+		"multiset" => run_part(ctx, seed, cases, &case_strategy(), |c, counting| check_multiset(ctx, c, counting)),
+		_ => None,
+	}
 }
 
 pub fn replay(ctx: &Ctx, part: &str, case: &Value) -> PResult {
